@@ -114,6 +114,10 @@ def ensure_serializable(
     for arg in items:
         try:
             coder.loads(coder.dumps(arg))
+            if getattr(coder, "__name__", None) == "json":
+                # JSON documents are UTF-8 text. Lone surrogates survive
+                # json.dumps (they are escaped), but not a UTF-8 encoder.
+                coder.dumps(arg, ensure_ascii=False).encode("utf-8")  # type: ignore
             safe_exc_args.append(arg)
         except Exception:
             safe_exc_args.append(safe_repr(arg))
